@@ -357,11 +357,14 @@ def call_builtin(ex, name, args, kw, st, node):
         ascii_only(ex, sq, st, node, 'no-UnicodeDecodeError')
         return sq.with_kind('str')
     if name == 'format':
-        if len(A) == 2 and A[1] == '02x':
+        if len(A) == 2 and A[1] in ('02x', '02X'):
             b = ex.as_int(A[0], st, node)
             ex.oblige(st, AND(b >= 0, b <= 255), 'model-domain:format(b,"02x") for a byte', node)
             if isinstance(b, int):
-                return format(b, '02x')
+                return format(b, A[1])
+            if A[1] == '02X':
+                up = lambda n: ite(n < 10, n + 48, n + 55)
+                return SSeq.of([up(b // 16), up(b % 16)], 'str')
             return SSeq.of([hexdigit(b // 16), hexdigit(b % 16)], 'str')
         raise SymErr('format() signature')
     if name == 'bytearray.fromhex' or name == 'bytes.fromhex':
